@@ -41,7 +41,9 @@ class Variables:
                 assert set_expressions, "SET without values in expression(s) is unexpected."
                 eq = set_expressions[0].this
                 name = eq.this.sql()
-                value = eq.args.get("expression").sql()
+                # render with the dialect that will parse the statements the value is inlined into,
+                # so that backslashes in string values are escaped again
+                value = eq.args.get("expression").sql(dialect="snowflake")
                 self._set(name, value)
             else:
                 # Haven't been able to produce this in tests yet due to UNSET being parsed as an Alias expression.
